@@ -124,7 +124,10 @@ def _decide_type_tests(program, t, e, ty):
         if x[0] == 'call' and x[1] == T.G('tuple') and len(x[2]) == 1 and x[2][0] == e and not x[3] and ty == 'tuple':
             return e
         return None
-    return T.replace(t, f)
+    t = T.replace(t, f)
+    if ty == 'NoneType':
+        t = T.replace(t, lambda x: T.C(None) if x == e else None)       # the only value of that type
+    return t
 
 
 def _is_unspecified(t):
@@ -320,6 +323,9 @@ class Contracts:
                 continue
             import itertools as _it
             for tcombo in _it.product(*[[(src, e, ty) for ty in tys] for src, e, tys in texprs]):
+              chosen = {src: ty for src, _, ty in tcombo}
+              if any(all(chosen.get(k_) in v_ for k_, v_ in ex.items()) for ex in meta.get("exclude", [])):
+                  continue            # a combination of argument types no property quantifies over
               tname = " ".join(f"[{src}: {ty}]" for src, _, ty in tcombo)
               def typed(t, tcombo=tcombo):
                   for _, e, ty in tcombo:
@@ -334,9 +340,21 @@ class Contracts:
                             return T.C(v)
                     return None
                 nm = name + " " + tname + " " + ", ".join(f"[{src}]={v}" for (src, _), v in zip(bexprs, vals))
-                def under(t, facts=facts):
+                # `x == c` assumed true for a parameter x: x is c
+                eqs, clash = {}, False
+                for (src, e), v in facts:
+                    if v and e[0] == 'cmp' and e[1] == 'Eq' and {e[2][0], e[3][0]} == {'var', 'const'}:
+                        x_, k_ = (e[2], e[3]) if e[2][0] == 'var' else (e[3], e[2])
+                        clash = clash or (x_ in eqs and eqs[x_] != k_)
+                        eqs[x_] = k_
+                if clash:
+                    continue            # contradictory case (x == 'a' and x == 'b')
+                def under(t, facts=facts, eqs=eqs):
                     # the case assumption also decides what follows from it (x == 'bool' makes x == 'int' false)
-                    t = T.canonical(T.replace(t, rep2))
+                    t = T.replace(t, rep2)
+                    if eqs:
+                        t = T.replace(t, lambda x: eqs.get(x) if x[0] == 'var' else None)
+                    t = T.canonical(t)
                     for (src, e), v in facts:
                         t = T._assume(t, T.canonical(e), v)
                     return T.canon(t)
